@@ -411,13 +411,26 @@ class Executor:
         return [(st, v)]
 
     def ev_JoinedStr(self, e, st):
+        """f-strings: exact text for literal pieces and str/int/bool values without a format spec."""
         exprs = [p.value for p in e.values if isinstance(p, ast.FormattedValue)]
         out = []
         for (s, vals) in self.ev_list(exprs, st):
             if is_exc(vals):
                 out.append((s, vals))
-            else:
-                out.append((s, Z(V.VStr(V.fresh("fstr", V.S)), "str")))
+                continue
+            it = iter(vals)
+            r = z3.StringVal("")
+            for p in e.values:
+                if isinstance(p, ast.Constant):
+                    r = z3.Concat(r, z3.StringVal(str(p.value)))
+                else:
+                    v = next(it)
+                    if isinstance(v, Z) and p.format_spec is None and p.conversion == -1 and \
+                            (v.hint in ("str", "int", "bool") or self.def_str(v, s)):
+                        r = z3.Concat(r, V.py_str(v.t))
+                    else:
+                        r = z3.Concat(r, V.fresh("fstr", V.S))
+            out.append((s, Z(V.VStr(z3.simplify(r)), "str")))
         return out
 
     def ev_Tuple(self, e, st):
@@ -648,7 +661,10 @@ class Executor:
             if isinstance(ba, AbsBox) and isinstance(bb, (ListBox, AbsBox)) and ba.length is not None:
                 extra = z3.IntVal(len(bb.items)) if isinstance(bb, ListBox) else bb.length
                 if extra is not None:
-                    return [(s, s.alloc(AbsBox("list", ba.length + extra, ba.elem_ann)))]
+                    nb = AbsBox("list", ba.length + extra, ba.elem_ann)
+                    if isinstance(bb, ListBox):
+                        nb.prov = (a.ref, list(bb.items))       # built as <a> + [items]: provenance for wf clauses
+                    return [(s, s.alloc(nb))]
         if isinstance(op, ast.Add) and isinstance(a, Z) and isinstance(b, RefV) and isinstance(s.store[b.ref], (ListBox, AbsBox)):
             # <heap list> + <local list>: a new list (neither operand is modified)
             res = []
@@ -660,7 +676,10 @@ class Executor:
                 extra = z3.IntVal(len(bb.items)) if isinstance(bb, ListBox) else bb.length
                 n0 = V.seq_len(V.get_rid(a.t))
                 s2.assume(n0 >= 0)
-                res.append((s2, s2.alloc(AbsBox("list", (n0 + extra) if extra is not None else None, None))))
+                nb = AbsBox("list", (n0 + extra) if extra is not None else None, None)
+                if isinstance(bb, ListBox):
+                    nb.prov = (a, list(bb.items))
+                res.append((s2, s2.alloc(nb)))
             return res
         if isinstance(a, RefV) and isinstance(s.store[a.ref], ObjBox):
             dunder = {ast.Add: "__add__", ast.Sub: "__sub__"}.get(type(op))
@@ -936,6 +955,8 @@ class Executor:
                         ann = ast.parse(self.contract.assume_fields[key], mode="eval").body
                     v = self.fresh_of_annotation(ann, "fld_%s_%s" % (box.cls, attr), s, node)
                     einv = self.contract.opts.get("elem_inv", {}).get(key)
+                    if isinstance(v, RefV) and isinstance(s.store[v.ref], AbsBox):
+                        s.store[v.ref].seq_id = "%s.%s" % (box.name, attr)
                     if einv and isinstance(v, RefV) and isinstance(s.store[v.ref], AbsBox):
                         s.store[v.ref].elem_inv = einv
                         s.store[v.ref].owner = base.ref
@@ -1182,7 +1203,12 @@ class Executor:
                 b2 = s2.store[base.ref]
                 key = z3.simplify(self.norm_index(i, n)).sexpr()
                 if key not in b2.reads:
-                    b2.reads[key] = self.fresh_of_annotation(b2.elem_ann, "item%d_%d" % (base.ref, len(b2.reads)), s2, node)
+                    # element constants are named by (logical sequence, index term): a copy of the sequence, or the
+                    # same sequence read on another path, denotes the same elements
+                    import hashlib
+                    sid = getattr(b2, "seq_id", None) or ("box%d" % base.ref)
+                    nm = "item_%s_%s" % (sid, hashlib.sha1(key.encode()).hexdigest()[:8])
+                    b2.reads[key] = self.fresh_of_annotation(b2.elem_ann, nm, s2, node)
                     self.assume_elem_inv(b2, b2.reads[key], s2, node, self.norm_index(i, n))
                 out.append((s2, b2.reads[key]))
             return out
